@@ -32,6 +32,7 @@ type connCase struct {
 	rule    string
 	hasRule bool
 	prep    string // "reauth": the application clears the authenticators and restarts the server before any connection is served
+	authvia string // "exec": the application registered its own AUTH executor, which calls the public Server.Auth; "msg": the application installed its own AuthCommandHandler, which rejects with an error REPLY (nil Go error)
 	cfail   []bool // per connection: closing the socket reports an error (as tls.Conn.Close does when close_notify cannot be sent)
 }
 
@@ -76,6 +77,8 @@ func parseCase(line string) connCase {
 			c.tls = strings.Split(v, ",")
 		case "prep":
 			c.prep = v
+		case "authvia":
+			c.authvia = v
 		case "cfail":
 			for _, x := range strings.Split(v, ",") {
 				c.cfail = append(c.cfail, x == "1")
@@ -119,6 +122,27 @@ func runConnCase(c connCase) string {
 	}
 	if c.hasRule {
 		srv.AddAuthenticator(auth.NewCertificateAuthenticatorWith(auth.WithCommonName(c.rule)))
+	}
+	switch c.authvia {
+	case "exec":
+		// an embedding application's own AUTH command (same argument forms as the built-in one) on top of the public Server.Auth
+		srv.RegisterExexutor("AUTH", func(conn *redis.Conn, cmd string, args redis.Arguments) (*redis.Message, error) {
+			first, err := args.NextString()
+			if err != nil {
+				return nil, err
+			}
+			user, passwd := "", first
+			if msg, _ := args.Next(); msg != nil {
+				second, err := msg.String()
+				if err != nil {
+					return nil, err
+				}
+				user, passwd = first, second
+			}
+			return srv.Auth(conn, user, passwd)
+		})
+	case "msg":
+		srv.SetAuthCommandHandler(&msgAuthHandler{srv: srv})
 	}
 	d := &double{table: c.table, def: c.def, srv: srv}
 	if !c.example {
@@ -410,4 +434,16 @@ func goid() uint64 {
 	}
 	id, _ := strconv.ParseUint(f[1], 10, 64)
 	return id
+}
+
+// msgAuthHandler is an application's AuthCommandHandler that decides like the built-in one but reports a rejection the way the
+// server itself reports unsupported commands: as an error reply with a nil Go error.
+type msgAuthHandler struct{ srv *redis.Server }
+
+func (h *msgAuthHandler) Auth(conn *redis.Conn, username string, password string) (*redis.Message, error) {
+	m, err := h.srv.Auth(conn, username, password)
+	if err != nil {
+		return redis.NewErrorMessage(err), nil
+	}
+	return m, nil
 }
